@@ -136,11 +136,28 @@ type world struct {
 	// second layer
 	cur        map[int]*callRec // engine task id -> call in flight on that task
 	opensClass string
+
+	// first use through the name registry (firstuse_test.go): the harness does not create the
+	// breaker; it comes into being with the first lookups of the name, made by several tasks
+	byName  bool                    // the window is read from breaker.GetBreaker(name) at every accounting check
+	seen    bool                    // something that follows a lookup of the name has been observed
+	seenAt  time.Duration           // ... first at this instant (upper bound of the creation instant)
+	dead    bool                    // creation instant unknown: no verdicts from this world
+	holders map[int]breaker.Breaker // engine task id -> the breaker that task obtained from GetBreaker(name) and keeps
 }
 
 func (w *world) now() time.Duration { return time.Since(w.t0) }
 
 func (w *world) stamp() stamp { w.clk++; return stamp{t: w.now(), s: w.clk} }
+
+// observe: st was taken after a lookup of the world's name has returned (the request or the
+// fallback of a by-name call runs, a by-name call has returned, GetBreaker has returned).  The
+// breaker of the name exists by then; the first such instant bounds its creation from above.
+func (w *world) observe(st stamp) {
+	if !w.seen {
+		w.seen, w.seenAt = true, st.t
+	}
+}
 
 func bucketOf(t time.Duration) int64 { return int64(t / bucketDur) }
 
@@ -210,6 +227,7 @@ func (w *world) call(p *plan) *callRec {
 	req := func() error {
 		c.reqRuns++
 		st := w.stamp()
+		w.observe(st)
 		if c.reqRuns == 1 {
 			c.reqStart = st
 			if !c.decSet {
@@ -235,6 +253,7 @@ func (w *world) call(p *plan) *callRec {
 	fb := func(err error) error {
 		c.fbRuns++
 		st := w.stamp()
+		w.observe(st)
 		if c.fbRuns == 1 {
 			c.fbStart = st
 			c.fbArg = err
@@ -256,6 +275,19 @@ func (w *world) call(p *plan) *callRec {
 		return c.fbRet
 	}
 
+	// the task's own long-lived handle on the name's breaker, if it took one; without any
+	// instance at hand (the harness has not resolved the name yet) the call goes by name
+	b := w.b
+	if h, ok := w.holders[r.CurrentID()]; ok {
+		b = h
+		if p.via == 0 {
+			r.Probe("first-use-call-through-holder")
+		}
+	}
+	via := p.via
+	if b == nil {
+		via = 1
+	}
 	w.inflight++
 	doneAtInv := ctx != nil && ctx.Err() != nil
 	c.inv = w.stamp()
@@ -266,13 +298,12 @@ func (w *world) call(p *plan) *callRec {
 				c.panicked, c.gotPanic = true, v
 			}
 		}()
-		b := w.b
 		switch p.entry {
 		case entDo:
 			switch {
-			case p.via == 1 && ctx != nil:
+			case via == 1 && ctx != nil:
 				c.gotErr = breaker.DoCtx(ctx, w.name, req)
-			case p.via == 1:
+			case via == 1:
 				c.gotErr = breaker.Do(w.name, req)
 			case ctx != nil:
 				c.gotErr = b.DoCtx(ctx, req)
@@ -281,9 +312,9 @@ func (w *world) call(p *plan) *callRec {
 			}
 		case entAcceptable:
 			switch {
-			case p.via == 1 && ctx != nil:
+			case via == 1 && ctx != nil:
 				c.gotErr = breaker.DoWithAcceptableCtx(ctx, w.name, req, acceptable)
-			case p.via == 1:
+			case via == 1:
 				c.gotErr = breaker.DoWithAcceptable(w.name, req, acceptable)
 			case ctx != nil:
 				c.gotErr = b.DoWithAcceptableCtx(ctx, req, acceptable)
@@ -292,9 +323,9 @@ func (w *world) call(p *plan) *callRec {
 			}
 		case entFallback:
 			switch {
-			case p.via == 1 && ctx != nil:
+			case via == 1 && ctx != nil:
 				c.gotErr = breaker.DoWithFallbackCtx(ctx, w.name, req, fb)
-			case p.via == 1:
+			case via == 1:
 				c.gotErr = breaker.DoWithFallback(w.name, req, fb)
 			case ctx != nil:
 				c.gotErr = b.DoWithFallbackCtx(ctx, req, fb)
@@ -303,9 +334,9 @@ func (w *world) call(p *plan) *callRec {
 			}
 		case entFallbackAcceptable:
 			switch {
-			case p.via == 1 && ctx != nil:
+			case via == 1 && ctx != nil:
 				c.gotErr = breaker.DoWithFallbackAcceptableCtx(ctx, w.name, req, fb, acceptable)
-			case p.via == 1:
+			case via == 1:
 				c.gotErr = breaker.DoWithFallbackAcceptable(w.name, req, fb, acceptable)
 			case ctx != nil:
 				c.gotErr = b.DoWithFallbackAcceptableCtx(ctx, req, fb, acceptable)
@@ -315,7 +346,7 @@ func (w *world) call(p *plan) *callRec {
 		case entAllow:
 			var pr breaker.Promise
 			var err error
-			if p.via == 1 {
+			if via == 1 {
 				b = breaker.GetBreaker(w.name)
 			}
 			if ctx != nil {
@@ -333,6 +364,7 @@ func (w *world) call(p *plan) *callRec {
 			}
 			// the caller performs the request itself
 			st := w.stamp()
+			w.observe(st)
 			c.reqRuns, c.reqStart = 1, st
 			c.decEnd, c.decSet = st, true
 			w.hasAdm, w.lastAdmT = true, st.t
@@ -351,6 +383,7 @@ func (w *world) call(p *plan) *callRec {
 		}
 	}()
 	c.ret = w.stamp()
+	w.observe(c.ret)
 	c.returned = true
 	w.inflight--
 	if !c.decSet {
@@ -361,7 +394,7 @@ func (w *world) call(p *plan) *callRec {
 	r.Ev("return", int64(c.id), int64(c.class), int64(c.ev))
 	if r.Tracing() {
 		r.Logf("call %d entry=%s via=%d ctx=%d outcome=%s dur=%v -> class=%d ev=%d err=%v panicked=%v req=%d fb=%d inv=%v ret=%v",
-			c.id, entryNames[p.entry], p.via, p.ctx, outcomeNames[p.outcome], p.dur, c.class, c.ev, c.gotErr, c.panicked, c.reqRuns, c.fbRuns, c.inv.t, c.ret.t)
+			c.id, entryNames[p.entry], via, p.ctx, outcomeNames[p.outcome], p.dur, c.class, c.ev, c.gotErr, c.panicked, c.reqRuns, c.fbRuns, c.inv.t, c.ret.t)
 	}
 	return c
 }
@@ -498,7 +531,7 @@ func lawHolds(nonAccepted, accepted int) bool { return 10*nonAccepted > 50+accep
 // called when no call is in flight.
 func (w *world) settle() {
 	r := w.r
-	if w.inflight != 0 {
+	if w.inflight != 0 || w.dead {
 		return
 	}
 	for ; w.checked < len(w.calls); w.checked++ {
@@ -567,15 +600,25 @@ func (w *world) settle() {
 // checkAccounting compares the breaker's own window with the model at a quiescent point.
 func (w *world) checkAccounting(where string) {
 	r := w.r
-	if w.inflight != 0 || r.Failed() || w.b == nil {
+	if w.inflight != 0 || r.Failed() || w.b == nil || w.dead {
 		// w.b == nil: the wrapper keeps its breaker private (REST middleware); accounting is then
 		// only checked through behaviour
 		return
 	}
+	b := w.b
+	if w.byName {
+		// THE breaker of the name, as the registry hands it out now
+		b = breaker.GetBreaker(w.name)
+		r.Probe("accounting-by-name-after-first-use")
+	}
 	t1 := w.now()
-	acc, tot, ok := breaker.VerifWindow(w.b)
+	acc, tot, ok := breaker.VerifWindow(b)
 	t2 := w.now()
 	if !ok {
+		if w.byName {
+			r.Fail("accounting-no-window", "%s: the registry's breaker of %q is a %T, which keeps no window: the calls made under that name are recorded nowhere", where, w.name, b)
+			return
+		}
 		r.EngineError("breaker.VerifWindow does not recognise the breaker")
 		return
 	}
